@@ -262,7 +262,7 @@ double AbstractDiscreteDistribution::getValueCategory(double value) const
     throw Exception("AbstractDiscreteDistribution::getValueCategory out of bounds:" + TextTools::toString(value));
 
   map<double, double>::const_iterator it = distribution_.begin();
-  for (unsigned int i = 1; i < bounds_.size(); i++)
+  for (size_t i = 0; i + 1 < numberOfCategories_; i++)
   {
     if (value < bounds_[i])
       break;
@@ -280,13 +280,13 @@ size_t AbstractDiscreteDistribution::getCategoryIndex(double value) const
   if (!(intMinMax_->isCorrect(value)))
     throw Exception("AbstractDiscreteDistribution::getValueCategory out of bounds:" + TextTools::toString(value));
 
-  for (unsigned int i = 1; i < bounds_.size(); i++)
+  for (size_t i = 0; i + 1 < numberOfCategories_; i++)
   {
     if (value < bounds_[i])
       return i;
   }
 
-  throw bounds_.size();
+  return numberOfCategories_ - 1;
 }
 
 /***********************************************************************/
